@@ -718,8 +718,8 @@ def _run(rep, tier, rng, audit, runner, exe, table, env, open_classes):
                                              "model": sane}))
 
     # ---- A: group machine
-    n_multi = 5000 if quick else 120000
-    n_tree = 2500 if quick else 60000
+    n_multi = 5000 if quick else 90000
+    n_tree = 2500 if quick else 45000
     n_perm_sets = 40 if quick else 600
     a_cases = []   # (ops, temperature, stream)
     for c in common.load_corpus("C10"):
@@ -736,7 +736,7 @@ def _run(rep, tier, rng, audit, runner, exe, table, env, open_classes):
         for p in sorted(set(itertools.permutations(range(len(qs))))):
             a_cases.append((ops_fold([qs[j] for j in p]), False, "perm"))
     tk = sorted(temp_keys)
-    for i in range(600 if quick else 12000):
+    for i in range(600 if quick else 9000):
         qs = [((gen_value(rng, False)), rng.choice(tk + tk + ["g", None, "bag"])) for _ in range(rng.randint(1, 6))]
         a_cases.append((ops_fold(qs), True, "temperature"))
     a_lines = ["A " + " ".join(o) for o, _, _ in a_cases]
@@ -764,7 +764,7 @@ def _run(rep, tier, rng, audit, runner, exe, table, env, open_classes):
     for c in common.load_corpus("C10"):
         if c.startswith("V "):
             v_cases.append(c.split(" ")[1:])
-    for i in range(1500 if quick else 40000):
+    for i in range(1500 if quick else 30000):
         vs = [gen_value(rng) for _ in range(rng.randint(0, 8))]
         toks = ["Q" + vtok(v) for v in vs]
         if rng.random() < 0.5 or len(vs) < 2:
@@ -783,7 +783,8 @@ def _run(rep, tier, rng, audit, runner, exe, table, env, open_classes):
             monitor_hits.append((case, m, {"case": case, "impl": li, "violated": m}))
             continue
         a, b = plist(li.split(" ")[1], ",", pval), (plist(lm.split(" ")[1], ",", pval) if not lm.startswith("V panic") else None)
-        if b is None or len(a) != len(b) or not all(same_qty((x, None), (y, None)) for x, y in zip(a, b)):
+        vmag = sum(max(abs(t) for t in v[1:]) for v in vals if v[0] != "t")
+        if b is None or len(a) != len(b) or not all(same_qty((x, None), (y, None), vmag) for x, y in zip(a, b)):
             disagreements.append((case, {"case": case, "impl": li, "model": lm}))
         if len(vals) >= 2:
             distinct.add(li)
@@ -799,7 +800,7 @@ def _run(rep, tier, rng, audit, runner, exe, table, env, open_classes):
             cats = json.loads(unhx(parts[-1][1:])) if parts[-1].startswith("#") else []
             body = " ".join(p for p in parts if not p.startswith("#"))
             r_cases.append((body, [(a, b) for a, b in cats], True, "corpus"))
-    n_seq = 1500 if quick else 40000
+    n_seq = 1500 if quick else 28000
     n_aisle = 3 if quick else 5
     for i in range(n_seq):
         texts = [gen_recipe(rng, recipe_units) for _ in range(rng.randint(1, 4))]
